@@ -62,6 +62,12 @@ CORPUS = [
     ("F33b", ("reshape", ("slice", ("where_out", "multiply", ("elem", "multiply", ("src", 0), ("const", 1)), ("src", 0), ("src", 1), ("src", 2)),
                           (S(None, 7, 1),)), (1, 7)),
      [_src((16,), ((15, 1),), mod=19, off=3), (np.arange(16) % 3 > 0, ((16,),)), (np.arange(16, dtype="int64") % 5 - 50, ((1, 15),))]),
+    # F33c (C03): view keeps the grid its child advertised; the block values are right, the block SHAPES are not the advertised ones
+    ("F33c", ("view", ("where", ("elem", "greater", ("flip", ("diff", ("src", 0), 0), 0), ("const", 0)), ("flip", ("diff", ("src", 0), 0), 0),
+                       ("flip", ("diff", ("src", 0), 0), 0)), "uint64", "C"),
+     [(np.array([-1, 6, 13, -3, 4, 11, -5, 2], dtype="int64"), ((2, 2, 2, 2),))]),
+    # F34: squeeze of a length-1 axis whose layout carries a zero-size chunk
+    ("F34", ("squeeze", ("src", 0), 1), [(np.ones((3, 1), dtype="int64"), ((3,), (0, 1)))]),
     # F21: diff over repeat over a concatenate raises NotImplementedError
     ("F21", ("diff", ("repeat", ("concat", (("reduce", "all", ("src", 0), (0,), True, None), ("src", 1)), 0), 2, 0), 0),
      [(np.array([-1, 6, 13], dtype="int64"), ((1, 2),)), (np.array([True, True]), ((1, 1),))]),
